@@ -1,6 +1,8 @@
 #pragma once
 #include "coloquinte.hpp"
 #include "place_detailed/incr_net_model.hpp"
+#include "place_detailed/row_legalizer.hpp"
+#include <algorithm>
 #include "json.hpp"
 #include "project.hpp"
 
@@ -79,11 +81,135 @@ inline Value handleIncr(const Value &v) {
   return r;
 }
 
+// ---- C15: free row space
+inline Value handleFree(const Value &v) {
+  const Value &rw = v["row"];
+  Row row((int)rw["x0"].asInt(), (int)rw["x1"].asInt(), (int)rw["y0"].asInt(), (int)rw["y1"].asInt(), vp::orientFrom(rw["o"].asStr()));
+  const Value &obs = v["obs"];
+  std::vector<Rectangle> extra, blocking;
+  std::vector<Rectangle> cellRects;
+  std::vector<bool> fixed, obstr;
+  for (size_t i = 0; i < obs.size(); ++i) {
+    Rectangle r((int)obs[i]["x0"].asInt(), (int)obs[i]["x1"].asInt(), (int)obs[i]["y0"].asInt(), (int)obs[i]["y1"].asInt());
+    std::string kind = obs[i]["kind"].asStr();
+    if (kind == "extra") {
+      extra.push_back(r);
+      blocking.push_back(r);
+    } else {
+      cellRects.push_back(r);
+      fixed.push_back(kind == "fixedObs" || kind == "fixedFree");
+      obstr.push_back(kind == "fixedObs" || kind == "movableObs");
+      if (kind == "fixedObs") blocking.push_back(r);
+    }
+  }
+  int n = (int)cellRects.size();
+  Circuit c(n);
+  std::vector<int> w(n), h(n), x(n), y(n);
+  for (int i = 0; i < n; ++i) {
+    w[i] = cellRects[i].width();
+    h[i] = cellRects[i].height();
+    x[i] = cellRects[i].minX;
+    y[i] = cellRects[i].minY;
+  }
+  c.setCellWidth(w);
+  c.setCellHeight(h);
+  c.setCellX(x);
+  c.setCellY(y);
+  c.setCellIsFixed(fixed);
+  c.setCellIsObstruction(obstr);
+  c.setRows({row});
+  auto canon = [&](const std::vector<Row> &rows, bool &shapeOk) {
+    std::vector<std::pair<int, int>> segs;
+    for (const Row &r : rows) {
+      if (r.minY != row.minY || r.maxY != row.maxY || r.orientation != row.orientation) shapeOk = false;
+      segs.emplace_back(r.minX, r.maxX);
+    }
+    std::sort(segs.begin(), segs.end());
+    return segs;
+  };
+  bool shape1 = true, shape2 = true;
+  auto viaCircuit = canon(c.computeRows(extra), shape1);
+  auto direct = canon(row.freespace(blocking), shape2);
+  std::vector<std::pair<int, int>> expect;
+  for (size_t i = 0; i < v["expect"].size(); ++i) expect.emplace_back((int)v["expect"][i][0].asInt(), (int)v["expect"][i][1].asInt());
+  bool ok = shape1 && shape2 && viaCircuit == expect && direct == expect;
+  Value r = Value::object();
+  r.set("ok", ok);
+  if (!ok) {
+    Value a = Value::array(), b = Value::array();
+    for (auto &s : viaCircuit) a.push(Value::array().push(s.first).push(s.second));
+    for (auto &s : direct) b.push(Value::array().push(s.first).push(s.second));
+    r.set("got", Value::object().set("computeRows", a).set("freespace", b).set("shape", shape1 && shape2));
+  }
+  return r;
+}
+
+// ---- C12: single-row legalizer; contract checks decide, equality with the transcription is informational
+inline Value handleRowLeg(const Value &v) {
+  int b = (int)v["b"].asInt(), e = (int)v["e"].asInt();
+  RowLegalizer leg(b, e);
+  const Value &cells = v["cells"];
+  std::vector<long long> costs;
+  std::vector<std::string> why;
+  long long sum = 0;
+  int used = 0;
+  for (size_t i = 0; i < cells.size(); ++i) {
+    int w = (int)cells[i][0].asInt(), t = (int)cells[i][1].asInt();
+    std::vector<int> before = leg.getPlacement();
+    long long q1 = leg.getCost(w, t);
+    long long q2 = leg.getCost(w, t);
+    if (leg.getPlacement() != before) why.push_back("query changed the placement");
+    long long c = leg.push(w, t);
+    if (q1 != q2) why.push_back("query not idempotent");
+    if (q1 != c) why.push_back("predicted cost differs from reported cost");
+    costs.push_back(c);
+    sum += c;
+    used += w;
+    if (leg.usedSpace() != used || leg.remainingSpace() != (e - b) - used) why.push_back("used/remaining space");
+  }
+  std::vector<int> pl = leg.getPlacement();
+  long long plCost = 0;
+  if (pl.size() != cells.size()) why.push_back("placement size");
+  else {
+    for (size_t i = 0; i < pl.size(); ++i) {
+      int w = (int)cells[i][0].asInt(), t = (int)cells[i][1].asInt();
+      if (pl[i] < b || pl[i] + w > e) why.push_back("outside the segment");
+      if (i + 1 < pl.size() && pl[i] + w > pl[i + 1]) why.push_back("order/overlap");
+      plCost += (long long)w * std::llabs((long long)pl[i] - t);
+    }
+  }
+  long long opt = v["opt"].asInt();
+  if (plCost != opt) why.push_back("placement not optimal");
+  std::string sig = "";
+  if (sum != opt) {
+    why.push_back("reported costs do not sum to the optimum");
+    if (why.size() == 1) sig = "cost-sum";
+  }
+  bool implSame = true;
+  for (size_t i = 0; i < costs.size(); ++i)
+    if (costs[i] != v["costs"][i].asInt()) implSame = false;
+  for (size_t i = 0; i < pl.size() && i < v["placement"].size(); ++i)
+    if (pl[i] != v["placement"][i].asInt()) implSame = false;
+  Value r = Value::object();
+  r.set("ok", why.empty());
+  r.set("impl", implSame);
+  if (!why.empty()) {
+    Value ws = Value::array();
+    for (auto &s : why) ws.push(s);
+    Value g = Value::object();
+    g.set("why", ws).set("costs", Value::from(costs)).set("placement", Value::from(pl)).set("sum", sum).set("placementCost", plCost);
+    r.set("got", g).set("sig", sig);
+  }
+  return r;
+}
+
 inline Value handle(const Value &v) {
   const std::string &k = v["k"].asStr();
   if (k == "pin") return handlePin(v);
   if (k == "row") return handleRow(v);
   if (k == "incr") return handleIncr(v);
+  if (k == "free") return handleFree(v);
+  if (k == "rowleg") return handleRowLeg(v);
   return Value();
 }
 }  // namespace vr
